@@ -66,7 +66,16 @@ type funcResult struct {
 }
 
 func verifyOne(eng *Engine, key string, opts solveOpts) *funcResult {
-	fi := eng.funcs[key]
+	base := key
+	if i := strings.Index(key, "@"); i >= 0 {
+		base = key[:i] // several contracts ("views") of one function: Recv.Name@tag
+	}
+	fi := eng.funcs[base]
+	if fi != nil && base != key {
+		cp := *fi
+		cp.Key = key
+		fi = &cp
+	}
 	fr := &funcResult{Key: key}
 	if fi == nil {
 		fr.Unsupported = []string{"function not found: " + key}
